@@ -39,7 +39,7 @@ BASE_PROFILE = dict(
     p_spawn=0.0,
     max_instances=300,
     sv_names=["sv0", "sv1", "at0"],
-    junk=["int", "str", "set", "nt", "obj"],
+    junk=["int", "str", "set", "nt", "obj", "nt_none", "odict", "ddict", "listsub"],
     lazy_modes=["ok", "ok", "raise"],
     sync_how=["call", "value"],
     root_yields=True,
